@@ -56,6 +56,46 @@ def key_of(b):
     return f"{b['phase']}:{why}:{where or 'emitted'}"
 
 
+def emit_stage(rep, tier, work):
+    """"Every container the compiler emits validates", over the programs of the other generators (typed core, POU
+    programs, feature programs) and a family of loop / condition shapes at the end of a POU: compile -> decode ->
+    validate -> encode = bytes -> apply to a runtime.  A program the front end accepts may be refused by the
+    bytecode compiler for a reason of its own, but must never fail in (or slip past) its own validation."""
+    from common import seed
+    n = 300 if tier == "quick" else 6000
+    src = work / "emit_sources.ndjson"
+    with open(src, "w") as out:
+        for prof in ("strict", "pous", "natural"):
+            f = work / f"emit_{prof}.ndjson"
+            tpv(["stcore-gen", "--seed", seed(), "--profile", prof, "--runs", n, "--out", f])
+            for sc in read_ndjson(f):
+                out.write(json.dumps({"from": prof, "src": sc["src"]}) + "\n")
+        f = work / "emit_features.ndjson"
+        tpv(["stfeat", "--seed", seed(), "--runs", 250 if tier == "quick" else 5000, "--out", f], timeout=3000)
+        for r in read_ndjson(f):
+            if r.get("accepted") and r.get("src"):
+                out.write(json.dumps({"from": "feature:" + r["family"], "src": r["src"]}) + "\n")
+    tr = work / "emit.trace.ndjson"
+    tpv(["emit-run", "--sources", src, "--shapes", 324 if tier == "quick" else 3240, "--seed", seed(), "--out", tr], timeout=3000)
+    rows = [r for r in read_ndjson(tr) if r["a"] == "Emit"]
+    acc = [r for r in rows if r["accepted"]]
+    if len(acc) < 800:
+        raise ToolError(f"emission sweep: only {len(acc)} accepted programs")
+    tally = {}
+    for r in acc:
+        k = r["res"]
+        if k == "compile":
+            # the bytecode compiler's own refusals are fine; a failure of its self-validation is not
+            d = r["detail"].lower()
+            k = "compile:self-validation" if ("invalid section" in d or "out of bounds" in d or "invalid bytecode" in d or "validation" in d) else "compile:refused"
+        tally[k] = tally.get(k, 0) + 1
+        if k in ("ok", "compile:refused"):
+            continue
+        rep.violation(f"emitted-container:{k}:{r['from'].split(':')[0]}", {"emit": True, "from": r["from"], "source": r["src"], "stage": r["res"], "detail": r["detail"]},
+                      f"program from {r['from']} accepted by the front end: {r['res']} -- {r['detail'][:160]}")
+    return {"emission_sweep_programs": len(acc), "emission_sweep_outcomes": dict(sorted(tally.items()))}
+
+
 def run(prop, tier, replay):
     work = OUT / "c11"
     work.mkdir(parents=True, exist_ok=True)
@@ -144,6 +184,8 @@ def run(prop, tier, replay):
                     next((r for r in rows if r["a"] == "Validate"), None)],
         "exhaustive": False,
     }
+    if not replay:
+        cov.update(emit_stage(rep, tier, work))
     return rep.finish(cov, assumptions=[
         "totality is sampled through model-generated and seeded structured mutants, truncations, random blobs and the child's 2 GiB "
         "address-space limit / 8 MiB stack; it is not a statement about all byte strings",
